@@ -82,10 +82,15 @@ package stcp
 //@ func Session.Send
 //@   requires swf(s)
 //@   ensures #refusedclosed cs(s.sendQ.closed) ==> result != nil
+//@   ensures #connuntouched connCloses == old(connCloses) && connWrites == old(connWrites) && connRDeadlines == old(connRDeadlines) && connWDeadlines == old(connWDeadlines)
 //@   modifies q.Q.closed, list.List.lmem, list.List.lcnt, list.Element.lrk, list.Element.Value, region($alloc)
+// Close only closes the send queue: it does nothing to the connection (no close, no write, no deadline that would wake
+// the parked reader), so the connection is closed by the loops' quit alone - for the send loop after PopAnyway has
+// drained the queue (flush before local close)
 //@ func Session.Close
 //@   requires swf(s)
 //@   ensures #closed s.sendQ.closed
+//@   ensures #connuntouched connCloses == old(connCloses) && connWrites == old(connWrites) && connRDeadlines == old(connRDeadlines) && connWDeadlines == old(connWDeadlines) && exits == old(exits) && atomicDecs == old(atomicDecs)
 //@   modifies q.Q.closed, list.List.lmem, list.List.lcnt, list.Element.lrk, list.Element.Value
 //
 // ---- accept loop: a connection is handed to the session manager only while the count is below the maximum; a
